@@ -1,7 +1,7 @@
 #!/bin/bash
-# usage: tools/runall.sh [tier] [seed]   - run every check, print exit code and wall time
+# usage: [VERIF_PROPS="C01 C02"] tools/runall.sh [tier] [seed]   - run every (or the listed) check, print exit code and wall time
 tier=${1:-quick}; seed=${2:-1}
-for p in C01 C02 C03 C04 C05 C06 C07 C08 C09 C10 C11 C12 C13 C14 C15 C16 C17 C18 C19 C20; do
+for p in ${VERIF_PROPS:-C01 C02 C03 C04 C05 C06 C07 C08 C09 C10 C11 C12 C13 C14 C15 C16 C17 C18 C19 C20}; do
   t0=$(date +%s)
   out=$(VERIF_SEED=$seed ./verif check $p --tier $tier 2>&1); rc=$?
   t1=$(date +%s)
